@@ -21,6 +21,11 @@ def run(rep, tier, replay):
     if tier == "thorough":
         ctab, xtab = shapes.COMPRESS_THOROUGH, shapes.EXPAND_QUICK
     mbad = sched.mc_legs(rep, [("compress", ctab), ("expand", xtab)], pol)
+    # (G) the run-length front end in-process: Rle.tla behaviours (machine = greedy rule) replayed through collect()
+    # for every split of the input into buffer calls at tiny capacities (the full leg is C04's)
+    import inproc, os
+    for line, beh in inproc.rle_leg(rep, os.path.join(os.path.dirname(exe), "src"), tier, mini=(tier == "quick")):
+        rep.violation("collect() deviates from Rle.tla: %s" % line, dict(kind="inproc", cls="rle-replay", harness="replay_rle", behaviour=beh, failure=line))
     fam = inputs.families(rng, tier)
     cases = []
     levels = range(1, 10)
@@ -54,6 +59,41 @@ def run(rep, tier, replay):
     bad += sched.judge(rep, druns, "C01")
     sched.report_runs(rep, "C01", exe, bad, "run")
     rep.cov["round_trips"] = len(druns)
+    # ---- several FILE operands in one invocation (per-operand state such as the stream CRC must be reset)
+    import os
+    wd = vlib.subdir("c01ops")
+    pick = [(n, d) for n, d in fam if 0 < len(d) < 400000][:6] + [(n, d) for n, d in fam if len(d) == 0][:1]
+    for k, (level, ultra, W) in enumerate([(9, False, 2), (1, True, 3), (5, False, 1)]):
+        d = os.path.join(wd, "r%d" % k)
+        os.makedirs(d)
+        names = []
+        for i, (n, data) in enumerate(pick):
+            with open(os.path.join(d, "f%d" % i), "wb") as f:
+                f.write(data)
+            names.append("f%d" % i)
+        r1 = vlib.run([exe, "-%d" % level, "-n", str(W), "-k"] + (["-u"] if ultra else []) + names, cwd=d, timeout=300)
+        r2 = vlib.run([exe, "-d", "-n", str(W), "-c"] + [n + ".bz2" for n in names], cwd=d, timeout=300)
+        rep.add("impl_runs", 2)
+        want = b"".join(data for _, data in pick)
+        why = None
+        if r1.rc != 0 or r1.err:
+            why = "compressing %d operands in one invocation: exit status %s, stderr %r" % (len(names), r1.rc, r1.err[:150])
+        elif r2.rc != 0 or r2.err:
+            why = "decompressing the %d files written by one invocation: exit status %s, stderr %r" % (len(names), r2.rc, r2.err[:150])
+        elif r2.out != want:
+            why = "files written by one invocation do not decompress to the operands"
+        else:
+            for i, (n, data) in enumerate(pick):
+                try:
+                    ok = bz2.decompress(open(os.path.join(d, "f%d.bz2" % i), "rb").read()) == data
+                except Exception:
+                    ok = False
+                if not ok:
+                    why = "libbz2 does not decode operand %d (%s) of a %d-operand invocation to its input" % (i + 1, n, len(names))
+                    break
+        if why:
+            rep.violation("%s [-%d%s -n %d]" % (why, level, " --sequential" if ultra else "", W),
+                          dict(kind="run", cls="multi-operand-round-trip", level=level, sequential=ultra, workers=W, inputs=[n for n, _ in pick]))
     # libbz2 as a second opinion on what was written
     for t in cruns[: (40 if tier == "quick" else 400)]:
         if t.run.rc == 0:
